@@ -9,7 +9,7 @@ CONSTANT MaxDepth, GenUnits
 
 VARIABLE hist, start
 
-GenInit == Init /\ hist = <<>> /\ start = [litplus |-> litplus, state |-> state]
+GenInit == Init /\ hist = <<>> /\ start = [litplus |-> litplus, state |-> state, utf8 |-> utf8]
 
 GenNext ==
   /\ Len(hist) < MaxDepth
@@ -22,6 +22,6 @@ GenView == <<start, hist, closed \/ stuck>>
 
 AllUnits == Units
 \* thorough depth-3 run: the interesting core (refusals and their neighbours)
-CoreUnits == {u \in Units : u.cmd \in {"LOGIN-user", "CREATE", "APPEND", "NOOP-lit", "NOOP", "IDLE"}
+CoreUnits == {u \in Units : u.cmd \in {"LOGIN-user", "CREATE", "APPEND", "NOOP-lit", "NOOP", "IDLE", "FETCH-hdr"}
                            /\ ~(u.size = "small" /\ u.payload = "benign" /\ u.form = "sync")}
 =============================================================================
